@@ -32,7 +32,7 @@ def run(tier, seed):
     res.rule = ("E1 rapidcheck: scheme in {LWE, trivial LWE, TLWE constant, TLWE polynomial, trivial TLWE, TGSW polynomial, TGSW integer, trivial TGSW}; key seed; "
                 "n in 1..40 and {500,630,1024,1025}; (N,k)=(1024,1..3); Msize any integer in 2..2^20 (non powers of two included, e.g. 65535, 65537, 100000, 1000003) and "
                 "powers of two up to 2^30; TGSW: (l,Bgbit) from the valid grid, Msize a power of two <= Bg; messages incl. 0 and Msize-1; noise class in "
-                "{~0, 2^-30, max/16, max/2, max} with max = 1/(20 Msize) (10 sigma) for LWE/TLWE and 1/(20 Msize (Bg/2) sqrt(l)) for TGSW. E2: every message of every "
+                "{~0, 2^-30, max/16, max/2, max} with max = 1/(20 Msize) (10 sigma) for LWE/TLWE and 1/(20 Msize |d|_2) for TGSW, d = the gadget digits of 1/Msize that decryption multiplies the row noise with. E2: every message of every "
                 "Msize in 2..64 (LWE n in {1,7,500}, TLWE constant and polynomial) at zero and maximal noise. Gate API: 2*reps encrypt/decrypt round trips per "
                 "batch under both default parameter sets on every back-end and build, plus CONSTANT. Oracle: decrypt(encrypt(m)) == m exactly; trivial samples under a freshly "
                 "generated key. Non-trivial = noise within a factor 2 of the maximum (non-trivial schemes) or Msize not a power of two; distinct by case hash / by construction.")
